@@ -184,7 +184,19 @@ func (h *schedHandle) lock(site string, m any, read bool) {
 		}
 		ok := false
 		if read {
-			ok = m.(rlocker).TryRLock()
+			// sync.RWMutex: a blocked Lock call excludes new readers (TryLock does not queue, so the pending writer
+			// is the scheduler's knowledge)
+			h.s.mu.Lock()
+			pendingWriter := false
+			for _, g := range h.s.gs {
+				if g != h.g && g.state == gLockBlocked && g.waitLock == m && !g.readLock {
+					pendingWriter = true
+				}
+			}
+			h.s.mu.Unlock()
+			if !pendingWriter {
+				ok = m.(rlocker).TryRLock()
+			}
 		} else {
 			ok = m.(locker).TryLock()
 		}
